@@ -298,6 +298,8 @@ def check_c15(run):
         rs = [{"name": r["name"], "sal": rng.choice([0, 1, 2, -1]), "ops": r["ops"]} for r in rec["rules"]]
         if third:
             rs.append({"name": "r3", "sal": rng.choice([0, 1, -2]), "ops": rng.choice(rec["rules"])["ops"]})
+        for r in rs:
+            r["ret"] = rng.random() < 0.35      # the rule ends by returning a value
         return rs
     def with_cf(rules, k="CF"):
         """CF: a conc block with a slow local assignment and a failing branch inside one of the rules; CW: the same with a
@@ -408,6 +410,20 @@ def check_c15(run):
                          "parallel": False, "rules": rules_of(rec), "calls": [mkcall(m, extra), mkcall("Execute", {})]})
     if quick and len(sessions) > 3200:
         sessions = rng.sample(sessions, 3200)
+    # objects and function values in locals of the SAME name in every rule, read several times (by method, through a dotted
+    # field name, by calling the function): what one execution resolved must not answer for another
+    for i in range(150 if quick else 2000):
+        sid += 1
+        rules = []
+        for n in ["r1", "r2", "r3"]:
+            w, r_ = rng.choice([("WM", "RM"), ("WM", "RM"), ("WN", "RN")])
+            ops = [{"k": w, "name": "x"}] + [{"k": r_, "name": "x"} for _ in range(rng.randint(1, 3))]
+            if rng.random() < 0.3:
+                ops.insert(rng.randint(1, len(ops)), {"k": "H", "name": ""})
+            rules.append({"name": n, "sal": rng.choice([0, 1, 2]), "ops": ops, "ret": rng.random() < 0.35})
+        calls = [mkcall(*rng.choice(ANY)) for _ in range(rng.randint(1, 3))]
+        sessions.append({"id": sid, "kind": "locals", "target": rng.choice(["engine", "engine", "pool"]), "gated": rng.random() < 0.7,
+                         "parallel": False, "rules": rules, "calls": calls})
     # plain names that are injected by some calls on a rule set and not by others: the same assignment statement binds
     # a local in one call and writes the caller's cell in the next (sequential models: log order = real order)
     plain = []
